@@ -146,6 +146,9 @@ where
             }
         }
 
+        // `update` moves the tip forward for every block it is handed. Once bootstrapped, the tip is `height`.
+        tx_index.tip = height;
+
         tx_index
     }
 
@@ -178,17 +181,20 @@ where
             .collect();
 
         self.tx_in_block.insert(block_header.block_hash(), ks);
+        // The tip is the height of the last block in the index, whether the index is full or refilling after a reorg.
+        self.tip += 1;
 
         if self.is_full() {
             // Avoid logging during bootstrap
             log::debug!("New block added to index: {}", block_header.block_hash());
-            self.tip += 1;
             self.remove_oldest_block();
         }
     }
 
     /// Fixes the index by removing disconnected data.
     pub fn remove_disconnected_block(&mut self, block_hash: &BlockHash) {
+        // The chain tip moves back with every disconnected block (even if the index has already run out of blocks).
+        self.tip = self.tip.saturating_sub(1);
         if let Some(ks) = self.tx_in_block.remove(block_hash) {
             self.index.retain(|k, _| !ks.contains(k));
 
